@@ -7,17 +7,23 @@ outer indexing (np.ix_-style, second oracle validating the spec)."""
 import itertools
 import json
 import os
+import warnings
 
 import numpy as np
 
 RULE = ('random 1-3-D sources (axis lengths 0-12) labelled injectively in C order; first- and second-stage index '
         'tuples drawn per axis from int (incl. negative / out of range), slice (any start/stop/step incl. negative '
         'and None), boolean mask (incl. all-False / all-True), strictly increasing list chosen dense or sparse w.r.t. '
-        'the 20% rule, and a malformed stream (unsorted / repeated / negative / out-of-range lists); 0-3 transforms '
-        '(elementwise with dtype change, end-axis drop/add); LazyIndexer over numpy arrays and h5py datasets, '
-        'ConcatenatedLazyIndexer over 1-4 parts (some empty, parts with their own first stage); a case is one '
-        '(source kind, shape(s), stage 1, transforms, stage 2); non-trivial when the implementation returns at least '
-        'one element through a non-full selection or exercises the rejection clause; distinct by canonical case')
+        'the 20% rule, and a malformed stream (unsorted / repeated / negative / out-of-range lists); source dtypes '
+        'bool, int64, float32/64, complex64/128 and byte strings |S1..|S6 with elements that make every narrowing '
+        'cast visible (full-width strings, non-zero imaginary parts, values other than 0/1); 0-3 transforms '
+        '(elementwise a*x+b cast to any numeric dtype incl. bool, end-axis drop/add); LazyIndexer over numpy arrays '
+        'and h5py datasets, ConcatenatedLazyIndexer over 1-4 parts (some empty, parts with their own first stage and '
+        'their own dtype: one common dtype, byte strings of different widths in any order, or kinds that katdal '
+        'rejects) plus a fixed sweep of (part dtypes x head kind x dtype-changing transform); a case is one '
+        '(source kind, shape(s), dtype(s), stage 1, transforms, stage 2); values, shape AND dtype of every answer are '
+        'compared; non-trivial when the implementation returns at least one element through a non-full selection or '
+        'exercises the rejection clause; distinct by canonical case')
 ASSUMPTIONS = [
     'boolean masks have the length of their axis (other lengths are outside the model)',
     'first-stage integer keeps its axis with length 1 (LazyIndexer convention self[:].shape); the spec uses the same convention',
@@ -27,10 +33,30 @@ ASSUMPTIONS = [
     'per-axis gathers: tied only by this correspondence',
     'h5py datasets reject negative slice steps: such cases are compared against the spec only (no tie)',
     'float evaluation of 0.2 * dim_len is modelled exactly as dim_len / 5',
+    'parts without rows are dropped by the indexer at construction: the spec ignores their tail shape and dtype too',
+    'parts whose dtypes are neither all equal nor all byte strings are rejected at construction '
+    '(ConcatenationError, documented): correct rejection; only the tie (model rejects as well) is checked there',
+    'a 0-d byte-string answer is a numpy scalar whose dtype is the width of its value: width not compared for 0-d',
+    'elements are integral / have integral real and imaginary parts, so every numeric cast is exact in the model',
 ]
 
-DT = {0: np.int64, 1: np.float64, 2: np.float32}
+DT = {0: np.int64, 1: np.float64, 2: np.float32, 3: np.bool_, 4: np.complex128, 5: np.complex64}
 DTCODE = {np.dtype(v): k for k, v in DT.items()}
+CK = 1048576          # LazyDType.cK: complex element re + CK * im
+NUMERIC = [0, 1, 2, 3, 4, 5]
+BYTES = [101, 102, 103, 104, 106]
+
+
+def np_dtype(code):
+    """numpy dtype of a LazyDType code (100 + w = '|Sw')"""
+    return np.dtype('S%d' % (code - 100)) if code > 100 else np.dtype(DT[code])
+
+
+def dt_code(dtype):
+    dtype = np.dtype(dtype)
+    if dtype.kind == 'S':
+        return 100 + dtype.itemsize
+    return DTCODE.get(dtype, -1)
 
 # ----------------------------------------------------------------------------- encodings
 
@@ -68,27 +94,46 @@ def py_tr(t):
     if t[0] == 'map':
         a, b, dt = t[1], t[2], t[3]
         if dt is None:
-            return LazyTransform('map', lambda data, keep: data * a + b)
+            return LazyTransform('map', lambda data, keep: (data * a + b).astype(data.dtype))
         return LazyTransform('map', lambda data, keep: (data * a + b).astype(DT[dt]), dtype=np.dtype(DT[dt]))
     if t[0] == 'drop':
-        return LazyTransform('drop', lambda data, keep: data[..., 0], lambda s: tuple(s)[:-1])
-    return LazyTransform('add', lambda data, keep: data[..., np.newaxis], lambda s: tuple(s) + (1,))
+        return LazyTransform('drop', lambda data, keep: np.asarray(data)[..., 0], lambda s: tuple(s)[:-1])
+    return LazyTransform('add', lambda data, keep: np.asarray(data)[..., np.newaxis], lambda s: tuple(s) + (1,))
+
+
+def enc_values(a):
+    """elements as the integers of LazyDType's encoding (None when a value has no encoding)"""
+    flat = a.ravel()
+    kind = a.dtype.kind
+    if kind == 'S':
+        return [int.from_bytes(x, 'little') for x in flat.tolist()]
+    if kind == 'b':
+        return flat.astype(np.int64).tolist()
+    if kind == 'c':
+        re, im = np.rint(flat.real), np.rint(flat.imag)
+        if flat.size and not (np.array_equal(re, flat.real) and np.array_equal(im, flat.imag)):
+            return None
+        return [int(r) + CK * int(i) for r, i in zip(re.tolist(), im.tolist())]
+    ints = np.rint(flat).astype(np.int64) if flat.size else np.zeros(0, np.int64)
+    if flat.size and not np.array_equal(ints, flat):
+        return None
+    return ints.tolist()
 
 
 def canon(out):
     a = np.asarray(out)
-    code = DTCODE.get(a.dtype, -1)
-    flat = a.ravel()
-    ints = np.rint(flat).astype(np.int64) if flat.size else np.zeros(0, np.int64)
-    if flat.size and not np.array_equal(ints, flat):
-        return ['ok', code, list(a.shape), ['non-integral']]
-    return ['ok', code, list(a.shape), ints.tolist()]
+    code = dt_code(a.dtype)
+    if code > 100 and a.ndim == 0:
+        code = 100            # numpy scalar: the width is that of the value
+    vals = enc_values(a)
+    return ['ok', code, list(a.shape), ['non-integral'] if vals is None else vals]
 
 
 def canon_model(o):
     if o[0] == 0:
         return ['err']
-    return ['ok', o[1], list(o[2]), list(o[3])]
+    code = 100 if (o[1] > 100 and len(o[2]) == 0) else o[1]
+    return ['ok', code, list(o[2]), list(o[3])]
 
 # ----------------------------------------------------------------------------- numpy oracle
 
@@ -123,13 +168,12 @@ def np_oindex(x, ixs, keepdims=False):
 def np_transforms(ts, data, dtype):
     for t in ts:
         if t[0] == 'map':
-            data = data * t[1] + t[2]
-            if t[3] is not None:
-                data = data.astype(DT[t[3]])
+            src = data.dtype
+            data = (data * t[1] + t[2]).astype(DT[t[3]] if t[3] is not None else src)
         elif t[0] == 'drop':
-            data = data[..., 0]
+            data = np.asarray(data)[..., 0]
         else:
-            data = data[..., np.newaxis]
+            data = np.asarray(data)[..., np.newaxis]
     return data
 
 # ----------------------------------------------------------------------------- generators
@@ -192,10 +236,13 @@ def gen_ix(rng, n, malformed=0.0, kinds=None):
     return ('s', None, None, None)
 
 
-def gen_ts(rng, allow_drop=True):
+def gen_ts(rng, allow_drop=True, maps=True):
     ts = []
-    for _ in range(rng.choice([0, 0, 0, 1, 1, 2])):
-        ts.append(('map', rng.choice([1, 2, 3, -1]), rng.choice([0, 1, 5]), rng.choice([None, None, 1, 2, 0])))
+    for _ in range(rng.choice([0, 0, 0, 1, 1, 2]) if maps else 0):
+        a, b, dt = rng.choice([1, 2, 3, -1]), rng.choice([0, 1, 5]), rng.choice([None, None, 1, 2, 0, 3, 3, 4, 5])
+        if dt == 3 and rng.random() < 0.6:
+            b = -a            # a*x+b vanishes at x = 1 only: a cast to bool before and after the map differ
+        ts.append(('map', a, b, dt))
     if allow_drop and rng.random() < 0.3:
         ts.insert(rng.randint(0, len(ts)), (rng.choice(['drop', 'add']),))
     return ts
@@ -220,8 +267,9 @@ def gen_lazy(rng, malformed):
     k2 = [gen_ix(rng, n, malformed) for n in lens[:rng.choice([nd, nd, nd, rng.randint(0, nd), nd + 1])]]
     if len(k2) > nd:
         k2 = k2[:nd] + [('i', 0)]
-    return dict(kind='lazy', src=rng.choice(['numpy', 'h5py']), shape=shape, keep=k1, ts=gen_ts(rng),
-                dt=rng.choice([0, 0, 1, 2]), index=k2)
+    dt = rng.choice([0, 0, 1, 2, 3, 4, 5] + BYTES[:3])
+    return dict(kind='lazy', src=rng.choice(['numpy', 'h5py']), shape=shape, keep=k1,
+                ts=gen_ts(rng, maps=dt < 100 or rng.random() < 0.1), dt=dt, index=k2)
 
 
 def gen_concat(rng, malformed):
@@ -253,7 +301,18 @@ def gen_concat(rng, malformed):
         lens.append(len(np_resolve(n, tail_keep[ax])[0]) if ax < len(tail_keep) else n)
     nd = len(lens)
     index = [gen_ix(rng, n, malformed if ax == 0 else 0.0) for ax, n in enumerate(lens[:rng.choice([nd, nd, 1, rng.randint(0, nd)])])]
-    return dict(kind='concat', parts=parts, ts=gen_ts(rng), dt=rng.choice([0, 0, 1]), index=index)
+    # dtypes of the parts: one common dtype, byte strings of different widths, or a mixture katdal rejects
+    r = rng.random()
+    if r < 0.5:
+        dts = [rng.choice(NUMERIC + [0, 103])] * nparts
+    elif r < 0.87:
+        dts = [rng.choice(BYTES) for _ in parts]
+    else:
+        dts = [rng.choice(NUMERIC) for _ in parts]
+    for p, d in zip(parts, dts):
+        p['dt'] = d
+    return dict(kind='concat', parts=parts, ts=gen_ts(rng, maps=dts[0] < 100 or rng.random() < 0.1), dt=dts[0],
+                index=index)
 
 # ----------------------------------------------------------------------------- implementation drivers
 
@@ -289,8 +348,23 @@ class Recorder:
 
 
 def labels(shape, base, dt):
+    """source of dtype code dt whose element with C-order label v is LazyDType.enc_val dt v"""
     n = int(np.prod(shape)) if len(shape) else 1
-    return (base * n + np.arange(n)).reshape(shape).astype(DT[dt])
+    v = base * n + np.arange(n)
+    if dt == 3:
+        a = ((v + v // 2) % 2).astype(bool)
+    elif dt in (4, 5):
+        a = (v + 1j * ((v % 7) - 3)).astype(DT[dt])
+    elif dt > 100:
+        w = dt - 100
+        a = np.array([bytes(97 + (x + 5 * i) % 26 for i in range(1 + x % w)) for x in v.tolist()], dtype='S%d' % w)
+    else:
+        a = v.astype(DT[dt])
+    return a.reshape(shape)
+
+
+def part_dt(case, p):
+    return p.get('dt', case['dt'])
 
 
 def part_bases(parts):
@@ -318,11 +392,11 @@ def run_impl(case, pool, log=None):
             li = LazyIndexer(src, keep=tuple(py_ix(ix, True) for ix in case['keep']), transforms=ts)
         else:
             bases = part_bases(case['parts'])
-            subs = [LazyIndexer(labels(p['shape'], b, case['dt']), keep=tuple(py_ix(ix, True) for ix in p['keep']))
+            subs = [LazyIndexer(labels(p['shape'], b, part_dt(case, p)), keep=tuple(py_ix(ix, True) for ix in p['keep']))
                     for p, b in zip(case['parts'], bases)]
             li = ConcatenatedLazyIndexer(subs, transforms=ts)
         res['shape'] = list(li.shape)
-        res['dtype'] = DTCODE.get(np.dtype(li.dtype), -1)
+        res['dtype'] = dt_code(li.dtype)
     except Exception as e:
         res['out'] = ['err', type(e).__name__ + ':init']
         return res
@@ -345,7 +419,7 @@ def run_numpy(case):
             a1 = np_oindex(labels(case['shape'], 0, case['dt']), case['keep'], keepdims=True)
         else:
             bases = part_bases(case['parts'])
-            fulls = [np_oindex(labels(p['shape'], b, case['dt']), p['keep'], keepdims=True)
+            fulls = [np_oindex(labels(p['shape'], b, part_dt(case, p)), p['keep'], keepdims=True)
                      for p, b in zip(case['parts'], bases)]
             ne = [f for f in fulls if f.shape[0]] or fulls[:1]
             a1 = np.concatenate(ne)
@@ -359,7 +433,7 @@ def wire_case(case):
         return [5, [case['shape'], [enc_ix(i) for i in case['keep']], [enc_tr(t) for t in case['ts']], case['dt'],
                     [enc_ix(i) for i in case['index']]]]
     bases = part_bases(case['parts'])
-    return [52, [[[p['shape'], [enc_ix(i) for i in p['keep']], b] for p, b in zip(case['parts'], bases)],
+    return [52, [[[p['shape'], [enc_ix(i) for i in p['keep']], b, part_dt(case, p)] for p, b in zip(case['parts'], bases)],
                  [enc_tr(t) for t in case['ts']], case['dt'], [enc_ix(i) for i in case['index']]]]
 
 # ----------------------------------------------------------------------------- classification
@@ -441,6 +515,43 @@ def stage1_exists(case):
         return False
 
 
+def used_dtypes(case):
+    """dtype codes of the parts the concatenated indexer keeps (parts with rows, or the first one)"""
+    dts = []
+    for p in case['parts']:
+        try:
+            n = len(np_resolve(p['shape'][0], p['keep'][0])[0]) if p['keep'] else p['shape'][0]
+        except Exception:
+            n = 0
+        if n:
+            dts.append(part_dt(case, p))
+    return dts or [part_dt(case, case['parts'][0])]
+
+
+def dtypes_compatible(case):
+    """katdal's documented restriction: all dtypes equal, or all byte strings"""
+    dts = used_dtypes(case)
+    return len(set(dts)) == 1 or all(d > 100 for d in dts)
+
+
+def dtype_cause(case, symptom):
+    """names the dtype ingredient of a wrong answer: parts of different dtypes / a dtype-changing transform"""
+    if symptom not in ('wrong_data', 'wrong_dtype', 'init_raises', 'raises'):
+        return None
+    head = case['index'][0][0] if case['index'] else 'full'
+    if case['kind'] == 'concat':
+        dts = used_dtypes(case)
+        if len(set(dts)) > 1:
+            order = 'narrow_first' if dts[0] < max(dts) else 'wide_first'
+            return 'mixed_dtypes(%s,%s,head=%s)' % ('bytes' if all(d > 100 for d in dts) else 'kinds', order, head)
+    if symptom in ('wrong_data', 'wrong_dtype'):
+        src = case['dt']
+        for t in case['ts']:
+            if t[0] == 'map' and t[3] is not None and t[3] != src:
+                return 'dtype_transform(%d->%d,head=%s)' % (src, t[3], head)
+    return None
+
+
 def cause_of(case, symptom, spec):
     f = features(case)
     for x in f:
@@ -452,6 +563,9 @@ def cause_of(case, symptom, spec):
         return 'slice(step<0)'
     if 'stage1_int(neg)' in f:
         return 'stage1_int(neg)'
+    dc = dtype_cause(case, symptom)
+    if dc and not (symptom == 'raises' and spec[0] == 'ok' and 0 in spec[2]):
+        return dc
     if case['kind'] == 'concat' and symptom == 'raises' and spec[0] == 'ok':
         if 0 in spec[2][1:] or (case['index'] and case['index'][0][0] != 'i' and 0 in spec[2]
                                 and len(spec[2]) > 1 and 0 in spec[2][1:]):
@@ -473,11 +587,29 @@ def h5_neg_step(case):
         any(ix[0] == 's' and (ix[3] or 1) < 0 for ix in case['index'])
 
 
+def scalar_bytes(case):
+    """byte-string source with a scalar index on every axis: the data handed to the transforms is a numpy scalar
+    whose dtype has the width of its value, so the width of the answer is not defined by the property"""
+    nd = len(case['shape']) if case['kind'] == 'lazy' else len(case['parts'][0]['shape'])
+    dts = [case['dt']] if case['kind'] == 'lazy' else [part_dt(case, p) for p in case['parts']]
+    return any(d > 100 for d in dts) and len(case['index']) >= nd and all(ix[0] == 'i' for ix in case['index'][:nd])
+
+
+def nowidth(x):
+    return x[:1] + [100] + x[2:] if len(x) > 1 and x[0] == 'ok' and x[1] > 100 else x
+
+
 def judge(ctx, case, impl, mo):
     """mo = model output [model, spec, shape-prop, dtype-prop] (or None while searching without a model)"""
     npo = run_numpy(case)
+    sb = scalar_bytes(case)
+    if sb:
+        npo = nowidth(npo)
+        impl = dict(impl, out=nowidth(impl['out']))
     if mo is not None:
         model, spec = canon_model(mo[0]), canon_model(mo[1])
+        if sb:
+            model, spec = nowidth(model), nowidth(spec)
         if spec != npo and not (spec[0] == 'err' and npo[0] == 'err'):
             ctx.disagree('what=spec_vs_numpy;kinds=%s' % ','.join(i[0] for i in case['index']), case, npo, model,
                          'Coq spec differs from numpy outer indexing', spec=spec, kind='tie')
@@ -490,6 +622,9 @@ def judge(ctx, case, impl, mo):
         spec = None
     elif out == ['err', 'InvalidTransform:init']:
         # a chain that drops every axis is documented as invalid: correct rejection (the tie checks the model agrees)
+        spec = None
+    elif case['kind'] == 'concat' and out == ['err', 'ConcatenationError:init'] and not dtypes_compatible(case):
+        # dtypes that are neither all equal nor all byte strings: documented rejection (the tie checks the model agrees)
         spec = None
     # the property: Ok -> equal to spec; in-domain and spec defined -> must answer
     if spec is None:
@@ -538,9 +673,16 @@ def judge(ctx, case, impl, mo):
         ctx.count('stage2=' + ix[0])
     if case['ts']:
         ctx.count('with_transforms')
+    if case['kind'] == 'concat':
+        dts = used_dtypes(case)
+        ctx.count('concat_dtypes=' + ('common' if len(set(dts)) == 1 else
+                                      'bytes_widths' if all(d > 100 for d in dts) else 'rejected_kinds'))
+    else:
+        ctx.count('lazy_dtype=' + ('bytes' if case['dt'] > 100 else np_dtype(case['dt']).name))
 
 
 def run_cases(ctx, cases, pool):
+    warnings.simplefilter('ignore', np.exceptions.ComplexWarning)
     mouts = ctx.model([wire_case(c) for c in cases]) if ctx.model_ok else [None] * len(cases)
     for c, mo in zip(cases, mouts):
         impl = run_impl(c, pool)
@@ -614,6 +756,52 @@ def read_trace_report(ctx, pool):
     ctx.extra['read_plans_single_slice'] = dense
     ctx.extra['read_plans_multi_segment'] = sparse
 
+# ----------------------------------------------------------------------------- dtype sweep (every tier)
+
+
+def sweep_heads(lens):
+    """head indices of every kind on parts of the given lengths: each part alone, part boundaries, everything"""
+    n = sum(lens)
+    last = n - lens[-1]                      # first row of the last part
+    one = lambda k: [int(i == k) for i in range(n)]
+    return [('i', 0), ('i', last), ('i', n - 1), ('i', -1), ('s', None, None, None), ('s', 0, lens[0], None),
+            ('s', 1, None, 2), ('s', last, None, None), ('s', n - 1, None, None), ('s', 0, 1, None),
+            ('m', [int(i in (0, last, n - 1)) for i in range(n)]), ('m', one(0)), ('m', one(n - 1)),
+            ('m', [int(i >= last) for i in range(n)]), ('l', [0, n - 1]), ('l', list(range(1, n - 1))), ('l', [n - 1]),
+            ('l', [0]), ('l', [-1, 0]), ('l', [n - 1, 1]), ('l', list(range(last, n))), ('l', [])]
+
+
+def dtype_sweep():
+    """fixed cases: part dtypes (every common dtype, byte strings narrow-first / wide-first / equal / rising and falling
+    over three parts, an empty part of another dtype in front, mixtures katdal rejects) x every head kind x
+    (no transform, dtype-changing maps); 1-D and 2-D parts.  Every byte-string part is long enough to hold strings of
+    its full width, so a buffer or cast narrower than the part loses data that the selection returns."""
+    dtsets = [[d, d] for d in NUMERIC] + [[102, 104], [104, 102], [103, 103], [101, 106], [106, 101]] + \
+        [[0, 1], [3, 0], [2, 1], [4, 5]]
+    chains = [[], [('map', 1, -1, 3)], [('map', -1, 1, 3)], [('map', 2, 1, 1)], [('map', 1, 0, 0)], [('map', 3, 0, 5)],
+              [('map', 1, 0, 4), ('map', 2, 0, 1)]]
+    cases = []
+
+    def add(lens, dts, tail, heads, tss):
+        for h in heads:
+            for ts in tss:
+                parts = [dict(shape=[n] + tail, keep=[], dt=d) for n, d in zip(lens, dts)]
+                cases.append(dict(kind='concat', parts=parts, ts=list(ts), dt=dts[0], index=[h]))
+    for dts in dtsets:
+        lens = [3 if dts[0] < 100 else dts[0] - 100, 2 if dts[1] < 100 else dts[1] - 100]
+        heads = sweep_heads(lens)
+        add(lens, dts, [], heads, chains if dts[0] < 100 else [[]])
+        add(lens, dts, [2], heads, [[]])
+        add(lens, dts, [2], [h for h in heads if h[0] == 'l'], chains[1:] if dts[0] < 100 else [])
+    # three parts: widths rising / falling / widest in the middle; an empty part (any dtype) in front or in the middle
+    for dts in ([101, 103, 106], [106, 103, 101], [102, 106, 103]):
+        lens = [d - 100 for d in dts]
+        add(lens, dts, [], sweep_heads(lens), [[]])
+    for lens, dts in (([0, 3, 6], [106, 103, 106]), ([0, 3, 2], [1, 103, 102]), ([2, 0, 4], [102, 0, 104]),
+                      ([0, 3, 2], [0, 4, 4])):
+        add(lens, dts, [], sweep_heads(lens), [[]])
+    return cases
+
 # ----------------------------------------------------------------------------- small-scope exhaustive (thorough)
 
 
@@ -645,6 +833,11 @@ def small_scope(ctx):
         for i1 in alpha(3):
             cases.append(dict(kind='concat', parts=[dict(shape=[h, 2], keep=[]) for h in split], ts=[], dt=0,
                               index=[i1]))
+    for split, dts in (([1, 2], [101, 102]), ([2, 1], [102, 101]), ([1, 1, 1], [101, 103, 102]), ([1, 2], [3, 3]),
+                       ([2, 1], [4, 4])):
+        for i1 in alpha(3):
+            cases.append(dict(kind='concat', parts=[dict(shape=[h, 2], keep=[], dt=d) for h, d in zip(split, dts)],
+                              ts=[], dt=dts[0], index=[i1]))
     return cases
 
 # ----------------------------------------------------------------------------- entry points
@@ -664,7 +857,9 @@ def norm_case(c):
     if c['kind'] == 'lazy':
         c['keep'] = [ix(i) for i in c.get('keep', [])]
     else:
-        c['parts'] = [dict(shape=p['shape'], keep=[ix(i) for i in p.get('keep', [])]) for p in c['parts']]
+        c.setdefault('dt', 0)
+        c['parts'] = [dict(shape=p['shape'], keep=[ix(i) for i in p.get('keep', [])], dt=p.get('dt', c['dt']))
+                      for p in c['parts']]
     c.setdefault('dt', 0)
     return c
 
@@ -681,6 +876,9 @@ def run(ctx):
         if os.path.isdir(corpus):
             cc = [norm_case(json.load(open(os.path.join(corpus, f)))) for f in sorted(os.listdir(corpus)) if f.endswith('.json')]
             run_cases(ctx, cc, pool)
+        sweep = dtype_sweep()
+        run_cases(ctx, sweep, pool)
+        ctx.extra['dtype_sweep_cases'] = len(sweep)
         n = ctx.scale(4000, 60000)
         if ctx.searching:
             n = ctx.scale(20000, 60000)
